@@ -541,12 +541,66 @@ theorem feed_nil (cfg : Cfg) (s : St) (h : Ready s) : feed cfg s [] = s := by
   · rw [feed_pasteOpen cfg s [] hp (by simpa using h hp)]; simp
   · rw [feed_normalDone cfg s [] (by simpa using hp) rfl]; rfl
 
-/-! ### handler on non-paste keys; table lookup -/
+/-- feeding `a ++ b` in one read = feeding `a`, then `b` (from every state) -/
+theorem feed_append_aux (cfg : Cfg) (s : St) (a b : Text) :
+    feed cfg s (a ++ b) = feed cfg (feed cfg s a) b := by
+  generalize hn : meas s a = n
+  induction n using Nat.strongRecOn generalizing s a with
+  | _ n ih =>
+    by_cases hp : s.inPaste = true
+    · rw [feed_eq cfg s (a ++ b), feed_eq cfg s a]
+      simp only [hp, if_true]
+      cases hf : findSub? endMark (s.paste ++ a) with
+      | some j =>
+        have hf' : findSub? endMark (s.paste ++ (a ++ b)) = some j := by
+          rw [← List.append_assoc]; exact findSub_append b hf
+        simp only [hf']
+        have hb := findSub_bound hf
+        rw [← List.append_assoc, List.take_append_of_le_length (by omega),
+          List.drop_append_of_le_length (by omega)]
+        refine ih _ ?_ _ _ rfl
+        simp only [meas, hp, if_true, Bool.false_eq_true, if_false, List.length_drop,
+          List.length_append, endMark, List.length_cons, List.length_nil] at *
+        omega
+      | none =>
+        simp only
+        conv => rhs; rw [feed_eq]
+        simp [List.append_assoc]
+    · rw [feed_eq cfg s (a ++ b), feed_eq cfg s a]
+      simp only [hp, Bool.false_eq_true, if_false]
+      rw [feedNormal_append]
+      have hs := feedNormal_spec cfg a s (by simpa using hp)
+      generalize feedNormal cfg a s = r at hs ⊢
+      obtain ⟨s1, rest⟩ := r
+      simp only at hs ⊢
+      by_cases h1 : s1.inPaste = true
+      · simp only [h1, if_true]
+        by_cases hr : rest = []
+        · subst hr
+          simp only [List.nil_append, List.isEmpty_nil, if_true]
+          by_cases hb : b = []
+          · subst hb
+            have hp1 := hs.1 h1
+            rw [feed_eq]
+            cases s1
+            simp_all [findSub?, endMark]
+          · simp [hb]
+        · have hre : (rest ++ b).isEmpty = false := by simp [hr]
+          have hre' : rest.isEmpty = false := by simp [hr]
+          simp only [hre, hre', Bool.false_eq_true, if_false]
+          refine ih _ ?_ s1 rest rfl
+          have := (hs.2 hr).2
+          simp only [meas, hp, h1, hs.1 h1, if_true, Bool.false_eq_true, if_false,
+            List.length_nil] at *
+          omega
+      · simp only [h1, Bool.false_eq_true, if_false]
+        have hr : rest = [] := Classical.byContradiction fun hne => h1 (hs.2 hne).1
+        subst hr
+        simp only [List.isEmpty_nil, if_true]
+        rw [feed_eq cfg s1 b]
+        simp [h1]
 
-/-- the key presses `_call_handler` delivers for a (tuple of) non-paste key(s) -/
-def presses : List String → Text → List Press
-  | [], _ => []
-  | k :: ks, d => ⟨k, d⟩ :: presses ks []
+/-! ### handler on non-paste keys; table lookup -/
 
 theorem callHandler_noPaste (cfg : Cfg) (s : St) (v : List String) (d : Text)
     (h : cfg.pasteKey ∉ v) : callHandler cfg s v d = { s with out := s.out ++ presses v d } := by
